@@ -52,16 +52,23 @@ class Timeout(BaseException):
 
 
 @contextlib.contextmanager
-def time_limit(seconds):
+def time_limit(seconds, real_factor=10):
+    """bound on the CPU time of this process (ITIMER_PROF: the verdict must not depend on how busy the machine is — a
+    wall-clock bound of 2 s alarmed on the unchanged tree when 16 workers shared the box with other jobs), with a wall-clock
+    backstop for a program that blocks without computing"""
     def handler(signum, frame):
         raise Timeout()
-    old = signal.signal(signal.SIGALRM, handler)
-    signal.setitimer(signal.ITIMER_REAL, seconds, 0.5)   # re-fires: a finally part of the program may swallow one
+    old_p = signal.signal(signal.SIGPROF, handler)
+    old_a = signal.signal(signal.SIGALRM, handler)
+    signal.setitimer(signal.ITIMER_PROF, seconds, 0.5)   # re-fires: a finally part of the program may swallow one
+    signal.setitimer(signal.ITIMER_REAL, max(seconds * real_factor, 20), 0.5)
     try:
         yield
     finally:
+        signal.setitimer(signal.ITIMER_PROF, 0)
         signal.setitimer(signal.ITIMER_REAL, 0)
-        signal.signal(signal.SIGALRM, old)
+        signal.signal(signal.SIGPROF, old_p)
+        signal.signal(signal.SIGALRM, old_a)
 
 
 # ----------------------------------------------------------------------------
